@@ -89,7 +89,7 @@ Fixpoint walk_ok (c : codec) {struct c} : Prop :=
        | f :: r => (walk_ok (f_codec f) /\ (0 <= f_index f < 2305843009213693952)%Z /\ (f_slot f < n)%nat) /\ all r
        end) fs
     /\ NoDup (map (fun f => f_index f) fs) /\ NoDup (map (fun f => f_slot f) fs)
-  | CSliceVar c' => plain_varint c' /\ walk_ok c'
+  | CSliceVar c' => plain_varint0 c' /\ walk_ok c'
   | CSliceFix c' => plain_fixed c'
   | CSliceLen c' => walk_ok c' /\ wire c' = WTLength
   | CMap kc vc => walk_ok kc /\ walk_ok vc /\ (kc = CString \/ strkey kc = false)
@@ -100,6 +100,9 @@ Fixpoint walk_ok (c : codec) {struct c} : Prop :=
 Lemma walk_ok_top : forall c, walk_ok c -> top_ok c.
 Proof. destruct c; cbn [walk_ok top_ok]; auto. Qed.
 
+Lemma pv0_pv c : plain_varint0 c -> plain_varint c.
+Proof. destruct c; cbn [plain_varint plain_varint0]; auto; contradiction. Qed.
+
 Lemma walk_ok_rt : forall c, walk_ok c -> rt_ok c.
 Proof.
   induction c as [ |b|b|b| | | | |compat| |c IH|c IH|nm n fs IH|c IH|c IH|c IH|c IH|kc vc IHk IHv|kc vc IHk IHv| | | ]
@@ -109,7 +112,7 @@ Proof.
   - split; [apply IH; exact H|apply walk_ok_top; exact H].
   - destruct H as (Hall & H1 & H2). split; [|split; assumption]. clear H1 H2.
     induction IH as [|f r Hf Hr IHr]; [exact I|]. destruct Hall as [(A & B & C) Hall]. split; [split; auto|apply IHr; exact Hall].
-  - apply H.
+  - apply pv0_pv, H.
   - destruct H as [A B]. split; [apply IH; exact A|]. split; [exact B|apply walk_ok_top; exact A].
   - destruct H as (A & B & _). repeat split; [apply IHk; exact A|apply IHv; exact B|apply walk_ok_top; exact A|apply walk_ok_top; exact B].
 Qed.
@@ -716,7 +719,7 @@ Proof.
   - match type of Hd with (do es <- ?X; _) = _ => destruct X as [es| | | |] end; cbn [bind] in Hd; try discriminate.
     injection Hd as <-. reflexivity.
   - destruct Hok as [Hpv _]. destruct (descriptor_of c) as [d0| | | |] eqn:E; cbn [bind] in Hd; try discriminate. injection Hd as <-.
-    assert (Hpt : packed_type (d_type d0) = true) by (destruct c; cbn [plain_varint] in Hpv; try contradiction; inversion E; reflexivity).
+    assert (Hpt : packed_type (d_type d0) = true) by (destruct c; cbn [plain_varint0] in Hpv; try contradiction; inversion E; reflexivity).
     rewrite (walk_slice_packed d0 _ Hpt). reflexivity.
   - destruct (descriptor_of c) as [d0| | | |] eqn:E; cbn [bind] in Hd; try discriminate. injection Hd as <-.
     assert (Hpt : packed_type (d_type d0) = true) by (destruct c; cbn [plain_fixed] in Hok; try contradiction; inversion E; reflexivity).
@@ -1051,16 +1054,16 @@ Proof.
     split; [intros _|intros Hwt; exfalso; apply Hwt; reflexivity].
     cbn [enc frame_tag slice_elems vev].
     assert (Hpt : packed_type (d_type d0) = true).
-    { destruct c; cbn [plain_varint] in Hpv; try contradiction; inversion E; reflexivity. }
+    { destruct c; cbn [plain_varint0] in Hpv; try contradiction; inversion E; reflexivity. }
     rewrite (walk_slice_packed d0 _ Hpt). cbv zeta.
     rewrite (walk_packed_list (fun e b => walk d0 b) d0 (fun x => enc c x []) (vev c)).
     + cbn [w_ev w_out wok app]. rewrite N.add_0_l. reflexivity.
     + rewrite Forall_forall in *. intros x Hx. split.
-      * rewrite (plain_varint_enc c x Hpv). pose proof (append_varuint_length_bounds (pv_val c x)) as Hb.
+      * rewrite (plain_varint_enc c x (pv0_pv c Hpv) (Hw x Hx)). pose proof (append_varuint_length_bounds (pv_val c x)) as Hb.
         destruct (append_varuint (pv_val c x)); [rewrite len_nil in Hb; lia|discriminate].
-      * intros more. assert (Hkx : wkv c x) by (destruct c; cbn [plain_varint] in Hpv; try contradiction; destruct x; exact I).
+      * intros more. assert (Hkx : wkv c x) by (destruct c; cbn [plain_varint0] in Hpv; try contradiction; destruct x; exact I).
         destruct (IH Hokc x d0 E (Hw x Hx) (Hfits x Hx) Hkx) as [_ S0]. apply S0.
-        destruct c; cbn [plain_varint] in Hpv; try contradiction; cbn [wire]; discriminate.
+        destruct c; cbn [plain_varint0] in Hpv; try contradiction; cbn [wire]; discriminate.
     + lia.
   - (* packed fixed slice *)
     cbn [descriptor_of] in Hd.
